@@ -6,6 +6,7 @@ import (
 	"bufio"
 	"fmt"
 	"io"
+	"math/rand"
 	"os"
 	"os/exec"
 	"runtime/debug"
@@ -280,6 +281,18 @@ func exec1(f []string) string {
 		}
 		return callWorker(f)
 	case "probe":
+		if f[1] == "xmlpipe" {
+			if len(f) < 5 {
+				return "bad-op"
+			}
+			if st, ok := parseNat(f[2]); !ok || st >= stMax {
+				return "bad-op"
+			}
+			if l, ok := decodeLineage(f[3:]); !ok || !l.wf() {
+				return "bad-op"
+			}
+			return callWorker(f)
+		}
 		if len(f) != 4 || f[1] != "api" {
 			return "bad-op"
 		}
@@ -340,6 +353,8 @@ func recheck(oracle string, ops, res []string) (bool, string) {
 		return false, ""
 	case "api-direct":
 		return apiDirectVerdict(ops, res)
+	case "xml-route":
+		return xmlRouteVerdict(ops, res)
 	case "api-total":
 		for i := range ops {
 			if f := strings.Fields(ops[i]); len(f) > 1 && f[1] == "probe" {
@@ -469,6 +484,29 @@ func runLineage(c *fw.Ctx, l *Lineage, tag string) {
 	}
 	c.Count(fmt.Sprintf("poms:%d", 1+len(l.Repo)))
 	runAPI(c, enc)
+	// the XML surface: the same lineage in other spellings (one random style; all single styles for the small families)
+	styles := []int{randStyle(c.Rng)}
+	if tag == "small-scope" || tag == "witness" {
+		styles = append(styles, stEmptySelf, stEmptyBlank, stBlanks|stCDATA, stCharRef|stComment, stUnknown, stBoolCase|stDupProp, stAmp, stMax-1)
+	}
+	for _, st := range styles {
+		j, _ := c.Opf("C15 probe xmlpipe %d %s", st, enc)
+		c.Check("xml-route", j, i)
+		c.Count("xml-style-ops")
+	}
+}
+
+func randStyle(r *rand.Rand) int {
+	st := 0
+	for b := 1; b < stMax; b <<= 1 {
+		if r.Intn(3) == 0 {
+			st |= b
+		}
+	}
+	if st == 0 {
+		st = 1 << r.Intn(10)
+	}
+	return st
 }
 
 func runTable(c *fw.Ctx, t tableCase) {
